@@ -136,6 +136,7 @@ Lemma stake_Done s who pid d amt s' rw :
     /\ s' = with_bank (with_pools s (set pid (with_farmers p1 (set who (mkF (f_locked fi + amt) db) (p_farmers p1))) (pools s))) b3.
 Proof.
   unfold stake. destruct (Z.leb_spec pid 0); [discriminate|]. destruct (Z.ltb_spec amt 0); [discriminate|].
+  destruct (Z.eqb_spec amt 0); [discriminate|].
   destruct (get pid (pools s)) as [p|] eqn:Ep; [|discriminate].
   destruct (Z.ltb_spec (height s) (p_start p)); [discriminate|].
   destruct (expired s pid p) eqn:Ex; [discriminate|].
